@@ -257,6 +257,7 @@ func init() {
 			guard(r, "ACCUM", func() { ruleACCUM(w, r) })
 			guard(r, "ENTRY-SEQ", func() { ruleENTRYSEQ(w, r, "par1", "par2") })
 			guard(r, "IMMUT", func() { ruleIMMUT(w, r, "par1", "par2") })
+			guard(r, "PAIR", func() { pairPar1Reconstruct(w, r) })
 		},
 	})
 
@@ -311,7 +312,7 @@ func init() {
 
 	register(&propertySpec{
 		ID: "C20", Fixtures: []string{"GLOB"}, NeedCG: true, Quick: cfgAMD, Thorough: cfgAll,
-		Explanation: "Decides the exit-status mapping of cmd/par.main on its control-flow graph with no-return inference and a small abstract interpreter for the helpers: after each library call no path with a non-nil error reaches status 0 and every status there is a known non-zero constant; verify's success side exits with processRepairChecker(result counts); the repair error of each format reaches that format's classifier before any exit and the classifier's true edge exits 2; formats are selected by path.Ext; usage errors exit 3; main cannot fall off its end (CLI 1-6). processRepairChecker and the verdict predicates are evaluated exhaustively over their finite comparison domain against the table in the property (DECIDE). The type the PAR2 classifier asserts is exactly the type ReconstructData returns on the not-enough-parity edge (PAIR-ERRTYPE). Volume discovery returns every matching directory entry, so 'possible' is judged on all recovery files present (GLOB).",
+		Explanation: "Decides the exit-status mapping of cmd/par.main on its control-flow graph with no-return inference and a small abstract interpreter for the helpers: after each library call no path with a non-nil error reaches status 0 and every status there is a known non-zero constant; verify's success side exits with processRepairChecker(result counts); the repair error of each format reaches that format's classifier before any exit and the classifier's true edge exits 2; formats are selected by path.Ext; usage errors exit 3; main cannot fall off its end (CLI 1-6). processRepairChecker and the verdict predicates are evaluated exhaustively over their finite comparison domain against the table in the property (DECIDE). The type the PAR2 classifier asserts is exactly the type ReconstructData returns on the not-enough-parity edge (PAIR-ERRTYPE). Volume discovery returns every matching directory entry, so 'possible' is judged on all recovery files present (GLOB). The library operations declare success only through the decoder (ENTRY-SEQ) and relative data paths are made absolute against the current directory with filepath.Abs (DETERM D-d).",
 		NotDecided:  []string{"which library error arises in which archive state (e.g. PAR2 'no parity shards' is an unclassified error)", "flag parsing semantics of package flag", "resolution of relative paths by the OS"},
 		Run: func(w *World, r *Report, tier string) {
 			guard(r, "CLI", func() { ruleCLI(w, r) })
@@ -321,6 +322,8 @@ func init() {
 			})
 			guard(r, "PAIR", func() { rulePAIRERRTYPE(w, r) })
 			guard(r, "GLOB", func() { ruleGLOB(w, r, globOpts{complete: true}) })
+			guard(r, "ENTRY-SEQ", func() { ruleENTRYSEQ(w, r, "par1", "par2") })
+			guard(r, "DETERM", func() { r.rule("DETERM", ruleDETERMText); determPathsPar2(w, r) })
 		},
 	})
 }
